@@ -1,5 +1,6 @@
 import TsVerif.C09.Lemmas
 import TsVerif.C09.Tie
+import TsVerif.C09.Column
 /-!
 # C09 — The tree is a pure function of language, text and included ranges
 
@@ -30,8 +31,12 @@ Clause map (theorems are about the ports `Utf8.lean` (= `ts_decode_utf8`/`U8_NEX
 * UTF-16 delivery → `utf16_decode_encode` (the UTF-16LE/BE decoder port, with the trail unit converted like the
   lead unit, reads back every scalar value from its encoding) and `utf16be_trail_witness` (unicode.h as it is
   does NOT for UTF-16BE on a little-endian host: genuine finding C09-utf16be-surrogate-pair, fix proposed).
-  OPEN `utf8_decode_encode` (the same for the `U8_NEXT` port; needs the bit-level lemmas) and hence
-  `utf16_utf8_same_chars`; OPEN `column_cache_eq`.
+  `utf8_decode_encode` (the `U8_NEXT` port reads back every scalar value from its UTF-8 encoding) and
+  `utf16_utf8_same_chars` (same code points from the UTF-8 and the UTF-16LE/BE encoding of any scalar sequence,
+  sizes = encoding lengths).  `column_cache_eq` (+ `doAdvance_col`): the exact invariant of `column_data` — a valid cache holds the
+  number of characters consumed since the state in which it was set to 0 (one per `do_advance` on the same
+  line, a BOM at offset 0 not counted, validity preserved), and the recomputation loop of `get_column`
+  started from that state replays the run and returns the same number.
 * UTF-16 delivery, parser history, logger, cancellation + resume/reset → no model of `TSParser`;
   decided per real case by the Lean judge on full dumps (implementation vs implementation).
 -/
@@ -281,6 +286,67 @@ theorem utf16_decode_encode (be : Bool) (c : Nat) (hc : Scalar c) (rest : List N
       have := Utf.decode16_pair true (hi / 256) (hi % 256) (lo / 256) (lo % 256) rest (by rw [e1]; exact r1) (by rw [e2]; exact r2)
       simpa [e1, e2, hv] using this
 
+/-- `utf8_decode_encode`: the `U8_NEXT` port reads back every Unicode scalar value from its UTF-8
+encoding, whatever follows, with the right size. -/
+theorem utf8_decode_encode (c : Nat) (hc : Scalar c) (rest : List Nat) :
+    decodeUtf8 (encodeUtf8 c ++ rest) = ((c : Int), (encodeUtf8 c).length) := by
+  obtain ⟨h1, h2⟩ := hc
+  unfold encodeUtf8
+  by_cases c1 : c < 0x80
+  · simp only [c1, if_true, List.cons_append, List.nil_append, decodeUtf8, List.length_singleton]
+  · by_cases c2 : c < 0x800
+    · simp only [c1, c2, if_false, if_true, List.cons_append, List.nil_append]
+      rw [Utf.dec2 _ _ (c % 64) rest (by omega) (by omega) (trailVal_enc _ (by omega))]
+      have e1 : (0xC0 + c / 64) &&& 0x1f = c / 64 := by
+        rw [and_mask _ 5 _ (by decide)]; omega
+      rw [e1, shl_or _ _ (by omega)]
+      have : c / 64 * 64 + c % 64 = c := by omega
+      simp [this]
+    · by_cases c3 : c < 0x10000
+      · simp only [c1, c2, c3, if_false, if_true, List.cons_append, List.nil_append]
+        have e1 : (0xE0 + c / 4096) &&& 0xf = c / 4096 := by
+          rw [and_mask _ 4 _ (by decide)]; omega
+        have e2 : (0x80 + c / 64 % 64) &&& 0x3f = c / 64 % 64 := by
+          rw [and_mask _ 6 _ (by decide)]; omega
+        rw [Utf.dec3 _ _ _ (c % 64) rest (by omega) (by omega)
+          (by rw [e1]; exact table3 _ (by omega) _ (by omega) (by omega) (by omega))
+          (trailVal_enc _ (by omega))]
+        rw [e1, e2, shl_or _ _ (by omega), shl_or _ _ (by omega)]
+        have : (c / 4096 * 64 + c / 64 % 64) * 64 + c % 64 = c := by omega
+        simp [this]
+      · simp only [c1, c2, c3, if_false, List.cons_append, List.nil_append]
+        have e0 : 0xF0 + c / 262144 - 0xf0 = c / 262144 := by omega
+        have e2 : (0x80 + c / 4096 % 64) &&& 0x3f = c / 4096 % 64 := by
+          rw [and_mask _ 6 _ (by decide)]; omega
+        rw [Utf.dec4 _ _ _ _ (c / 64 % 64) (c % 64) rest (by omega) (by omega)
+          (by rw [e0]; exact table4 _ (by omega) _ (by omega) (by omega) (by omega))
+          (trailVal_enc _ (by omega)) (trailVal_enc _ (by omega))]
+        rw [e0, e2, shl_or _ _ (by omega), shl_or _ _ (by omega), shl_or _ _ (by omega)]
+        have : ((c / 262144 * 64 + c / 4096 % 64) * 64 + c / 64 % 64) * 64 + c % 64 = c := by omega
+        simp [this]
+
+/-- `utf16_utf8_same_chars`: for every sequence of Unicode scalar values, decoding its UTF-8 encoding with
+the `U8_NEXT` port and its UTF-16LE/BE encoding with the UTF-16 port gives the same code points, one
+character for one character; the sizes are the lengths of the respective encodings, so the offsets are
+related by the unit map (prefix sums of those lengths). -/
+theorem utf16_utf8_same_chars (be : Bool) (cs : List Nat) (h : ∀ c ∈ cs, Scalar c) (fuel : Nat) (hf : cs.length ≤ fuel) :
+    decodeSeq decodeUtf8 fuel (cs.flatMap encodeUtf8) = cs.map (fun (c : Nat) => ((c : Int), (encodeUtf8 c).length)) ∧
+    decodeSeq (fun s => decodeUtf16 be s true) fuel (cs.flatMap (encodeUtf16 be)) =
+      cs.map (fun (c : Nat) => ((c : Int), (encodeUtf16 be c).length)) ∧
+    (decodeSeq decodeUtf8 fuel (cs.flatMap encodeUtf8)).map (·.1) =
+      (decodeSeq (fun s => decodeUtf16 be s true) fuel (cs.flatMap (encodeUtf16 be))).map (·.1) := by
+  have a := decodeSeq_encode decodeUtf8 encodeUtf8 (fun c rest hc => utf8_decode_encode c hc rest)
+    (by intro c; unfold encodeUtf8
+        by_cases h1 : c < 0x80 <;> by_cases h2 : c < 0x800 <;> by_cases h3 : c < 0x10000 <;> simp [h1, h2, h3]) cs fuel h hf
+  have b := decodeSeq_encode (fun s => decodeUtf16 be s true) (encodeUtf16 be)
+    (fun c rest hc => utf16_decode_encode be c hc rest)
+    (by intro c; unfold encodeUtf16; cases be <;> simp <;> split <;> simp) cs fuel h hf
+  refine ⟨a, b, ?_⟩
+  rw [a, b]; simp [List.map_map]
+
+example : Scalar 0x1D4B3 ∧ encodeUtf8 0x1D4B3 = [0xF0, 0x9D, 0x92, 0xB3] ∧ encodeUtf8 0x20AC = [0xE2, 0x82, 0xAC] :=
+  ⟨⟨by decide, by decide⟩, by decide, by decide⟩
+
 /-- The decoder as unicode.h has it: the UTF-16BE encoding of U+1D4B3 (D8 35 DC B3) is read as the
 unpaired lead surrogate 0xD835 of size 2 — the pair is not recognised; the LE encoding is read correctly. -/
 theorem utf16be_trail_witness :
@@ -290,6 +356,28 @@ theorem utf16be_trail_witness :
 
 example : Scalar 0x1D4B3 ∧ encodeUtf16 true 0x1D4B3 = [0xD8, 0x35, 0xDC, 0xB3] :=
   ⟨⟨by decide, by decide⟩, by decide⟩
+
+/-- `column_cache_eq`: start at a state whose column cache is valid and zero (what `get_column` sets up at
+the line start).  After a same-line run of `n` characters the CACHED column is `n`, and the RECOMPUTATION
+loop of `ts_lexer__get_column` started at the same state and aimed at the reached offset replays exactly
+that run — it ends in the same state, hence returns the same column `n`. -/
+theorem column_cache_eq (read : Read) (s : Lexer) (n : Nat) (hrun : SameLineRun read s n)
+    (hv : s.colValid = true) (h0 : s.colValue = 0) :
+    (adv read n s).colValid = true ∧ (adv read n s).colValue = n ∧
+    ((adv read n s).getColumn read).2 = n ∧
+    (getColumnLoop read (n + 1) s (adv read n s).pos.bytes).colValue = n := by
+  obtain ⟨c1, c2⟩ := adv_col read s n hrun hv n (Nat.le_refl _)
+  have c2' : (adv read n s).colValue = n := by rw [c2, h0]; omega
+  refine ⟨c1, c2', ?_, ?_⟩
+  · unfold Lexer.getColumn; simp [c1, c2']
+  · have := getColumnLoop_replays read s n hrun 0 (Nat.zero_le _)
+    simp only [Nat.sub_zero, adv] at this
+    rw [this]; exact c2'
+
+/-- Non-vacuity: `ab c` in one chunk, started at offset 0 (cache valid, 0): a same-line run of 3 characters. -/
+example : let read : Read := fun p => [0x61, 0x62, 0x20, 0x63].drop p
+    let s := (({} : Lexer).setInput).start read
+    s.colValid = true ∧ s.colValue = 0 ∧ (adv read 3 s).colValue = 3 ∧ (adv read 3 s).pos.bytes = 3 := by decide
 
 /-- Non-vacuity: `a€b`, chunks of three bytes, at the start of `€`. -/
 example : let text := [0x61, 0xe2, 0x82, 0xac, 0x62]
